@@ -39,10 +39,10 @@ Proof.
   - auto.
 Qed.
 
-Lemma qual_locks_perm : forall tbl g, cache_min_duration_ms < g_dur g ->
+Lemma qual_locks_perm : forall tbl g, g_pool g = 0 -> cache_min_duration_ms < g_dur g ->
   Permutation (qual_locks tbl g) (qualifying tbl g).
 Proof.
-  intros tbl g Hd. unfold qual_locks, locks_longer, qualifying.
+  intros tbl g Hp0 Hd. unfold qual_locks, locks_longer, qualifying.
   rewrite filter_app.
   eapply Permutation_trans.
   { apply Permutation_app; apply perm_filter, perm_sort_dur. }
@@ -52,7 +52,7 @@ Proof.
   assert (FF : forall u, filter f (filter (pu u) tbl) = filter (fun l => pu u l && f l) tbl).
   { intros u. clear. induction tbl as [|x r IH]; cbn [filter]; auto. destruct (pu u x); cbn [filter andb]; [destruct (f x); rewrite IH; auto|auto]. }
   rewrite !FF. apply perm_split_filter.
-  - intros x. unfold qualifies, pu, f. destruct (l_denom x =? g_denom g); cbn [andb orb]; auto.
+  - intros x. unfold qualifies, pu, f. rewrite Hp0. cbn [Z.eqb andb]. destruct (l_denom x =? g_denom g); cbn [andb orb]; auto.
     destruct (g_dur g <=? l_dur x) eqn:E; [|rewrite !andb_false_r; auto].
     apply Z.leb_le in E. assert ((cache_min_duration_ms <=? l_dur x) = true) by (apply Z.leb_le; lia).
     rewrite H. destruct (l_unl x); reflexivity.
@@ -94,15 +94,25 @@ Definition share_hyp (cfg : config) (tbl : list lock) (g : gauge) : Prop :=
   sum_locks (elig tbl g) < 2 ^ max_int_bits /\ g_n g < 2 ^ 63.
 
 Lemma gauge_credit_ideal : forall cfg thr tbl g a d,
-  gauge_ok g -> locks_pos tbl -> cache_min_duration_ms < g_dur g ->
+  gauge_ok g -> locks_pos tbl -> dur_ok g -> 0 <= a ->
   (g_perp g = false -> 0 <= g_filled g < g_n g) ->
   coins_sub (g_coins g) (g_dist g) <> None ->
   share_hyp cfg tbl g ->
   gauge_credit cfg thr g (elig tbl g) a d = credit_of_gauge cfg thr tbl a d g.
 Proof.
-  intros cfg thr tbl g a d (Pc & Pd & Le & Sc & Sd) Lp Hd Hf Hsub (Hsm & Hsum & Hn).
+  intros cfg thr tbl g a d (Pc & Pd & Le & Sc & Sd) Lp [Hd0 Hpl] Ha Hf Hsub (Hsm & Hsum & Hn).
   unfold gauge_credit, credit_of_gauge.
   destruct (coins_sub (g_coins g) (g_dist g)) as [remain|] eqn:Sb; [|congruence].
+  destruct (g_pool g =? 0) eqn:Pz; cbn [negb].
+  2:{ (* a NoLock gauge credits its pool only, and no lock qualifies for it *)
+      apply Z.eqb_neq in Pz.
+      assert (Q0 : qualifying tbl g = []).
+      { unfold qualifying. assert (F : forall l, qualifies g l = false) by (intros l; unfold qualifies; apply Z.eqb_neq in Pz; rewrite Pz; reflexivity).
+        clear -F. induction tbl as [|l r IH]; cbn [filter]; auto. rewrite F. auto. }
+      rewrite Q0. cbn [fold_right].
+      destruct (nolock_coins (remain_epochs g) remain []); auto.
+      assert (pool_addr (g_pool g) =? a = false) by (apply Z.eqb_neq; unfold pool_addr; lia). rewrite H. reflexivity. }
+  apply Z.eqb_eq in Pz. pose proof (Hd0 Pz) as Hd.
   pose proof (coins_sub_spec _ _ _ Sb) as Rs. pose proof (coins_sub_pos _ _ _ Sb Pc) as Rp.
   pose proof (coins_sub_sorted _ _ _ Sb Sc) as Rsd.
   assert (Rem : forall d0, remaining g d0 = amount_of remain d0) by (intros; unfold remaining; rewrite Rs; reflexivity).
@@ -113,14 +123,14 @@ Proof.
     unfold share. rewrite Rem, Z0, Z.mul_0_l. change (0 / (total_locked (qualifying tbl g) * epochs_left g)) with 0. cbn. destruct (receiver l =? a); reflexivity. }
   destruct (is_empty (elig tbl g)) eqn:Ee; cbn [orb].
   { (* no lock is eligible: either the gauge has no coins at all, or nobody qualifies *)
-    unfold elig in Ee. destruct (is_empty (g_coins g)) eqn:Ec.
+    unfold elig in Ee. rewrite Pz in Ee. cbn [Z.eqb negb] in Ee. destruct (is_empty (g_coins g)) eqn:Ec.
     - destruct (g_coins g) eqn:Gc; [|discriminate]. symmetry. apply Zero. rewrite Rs. cbn.
       specialize (Le d). cbn in Le. pose proof (amount_of_nonneg _ d (pos_nonneg _ Pd)). lia.
     - destruct (qual_locks tbl g) eqn:Q; [|discriminate].
-      pose proof (qual_locks_perm tbl g Hd) as P. rewrite Q in P. apply Permutation_nil in P. rewrite P. reflexivity. }
+      pose proof (qual_locks_perm tbl g Pz Hd) as P. rewrite Q in P. apply Permutation_nil in P. rewrite P. reflexivity. }
   assert (Ene : elig tbl g <> []) by (intros X; rewrite X in Ee; discriminate).
   assert (Eq : elig tbl g = qual_locks tbl g).
-  { unfold elig in *. destruct (is_empty (g_coins g)); [exfalso; apply Ene; reflexivity|reflexivity]. }
+  { unfold elig in *. rewrite Pz in *. cbn [Z.eqb negb] in *. destruct (is_empty (g_coins g)); [exfalso; apply Ene; reflexivity|reflexivity]. }
   destruct (is_empty remain) eqn:Er; cbn [orb].
   { destruct remain; [|discriminate]. symmetry. apply Zero. reflexivity. }
   rewrite (Hsm remain eq_refl Ene). cbn [orb].
@@ -140,7 +150,7 @@ Proof.
     rewrite E. unfold to_int64. assert (2 ^ 63 = 9223372036854775808) by reflexivity.
     destruct (g_n g - g_filled g <? 9223372036854775808) eqn:X; [split; [reflexivity|lia]|apply Z.ltb_ge in X; lia]. }
   destruct El as [El Epos]. rewrite El.
-  pose proof (qual_locks_perm tbl g Hd) as P. rewrite <- Eq in P.
+  pose proof (qual_locks_perm tbl g Pz Hd) as P. rewrite <- Eq in P.
   rewrite lsum_fold.
   rewrite (perm_fold_sum _ (fun l => if receiver l =? a then row_exact cfg thr (sum_amt (elig tbl g) * epochs_left g) (l_amt l) remain d else 0) _ _ P).
   assert (Tl : total_locked (qualifying tbl g) = sum_amt (elig tbl g)) by (rewrite total_locked_sum; symmetry; apply sum_amt_perm; auto).
@@ -177,13 +187,14 @@ Proof.
 Qed.
 
 Theorem share_credit : forall cfg thr s s', Inv s -> thr_positive thr -> consistent_receivers (s_locks s) ->
+  owners_nonneg (s_locks s) ->
   (forall g, takes_part s g -> share_hyp cfg (s_locks s) g) ->
   after_epoch_end cfg thr s = Ok s' ->
-  forall a d, a <> MODULE -> s_bank s' a d - s_bank s a d = ideal_credit cfg thr s a d.
+  forall a d, 0 <= a -> s_bank s' a d - s_bank s a d = ideal_credit cfg thr s a d.
 Proof.
-  intros cfg thr s s' I Tp Cs Hh H a d Ha.
-  destruct (epoch_credit_model _ _ _ _ I Tp Cs H) as (acts & Nd & Hacts & Cr).
-  rewrite (Cr a d Ha). rewrite gsum_fold. unfold ideal_credit.
+  intros cfg thr s s' I Tp Cs On Hh H a d Ha.
+  destruct (epoch_credit_model _ _ _ _ I Tp Cs On H) as (acts & Nd & Hacts & Cr).
+  rewrite (Cr a d ltac:(unfold MODULE; lia)). rewrite gsum_fold. unfold ideal_credit.
   assert (P : Permutation acts (participants s)).
   { apply NoDup_Permutation.
     - apply NoDup_map_inv'; auto.
